@@ -307,7 +307,7 @@ PROPS = {
         "level": "proof",
         "trusted_base": COMMON_TRUST + [
             "modelled, not verified: the honest token contract (ERC20MinterBurnerDecimals: transfer / mint / burn as balance arithmetic), the bank keeper's escrow / mint / burn / send, the EVM executing the token; adversarial token contracts are outside the model — their effect on the real keeper is observed by the correspondence run only",
-            "not covered: the IBC receive / acknowledgement / timeout callbacks (they need an IBC channel; they call the same ConvertCoin / ConvertERC20 the run exercises)",
+            "partly covered: of the IBC callbacks the receive path (OnRecvPacket) is run directly, on a branch written only on a success acknowledgement as ibc-go core does; the acknowledgement / timeout callbacks are not run (they call the same ConvertCoin the run exercises)",
         ],
         "assumptions": [
             "one denomination / one pair at a time (pairs do not interact)",
